@@ -401,7 +401,7 @@ func c07sDump() string {
 	if c07sDumpBuf == nil {
 		c07sDumpBuf = make([]byte, 16<<20)
 	}
-	return string(c07sDumpBuf[:runtime.Stack(c07sDumpBuf, true)])
+	return vCanonNames(string(c07sDumpBuf[:runtime.Stack(c07sDumpBuf, true)]))
 }
 
 // goroutines (other than the ones in `base`) that are inside the session manager / a session entry
